@@ -26,6 +26,9 @@ import (
 	"hash/fnv"
 	"math/big"
 	"os"
+	"os/exec"
+	"path/filepath"
+	"regexp"
 	"sort"
 	"strings"
 	"sync"
@@ -499,6 +502,20 @@ func (e *engine) all() error {
 		}
 		return e.eval(c)
 	}
+	if os.Getenv("C03_RACE_CHILD") != "" {
+		// child built with -race: only the concurrent engine, oracle-only
+		r := common.NewRng(o.Seed)
+		for i := 0; i < 1500; i++ {
+			if err := e.eval(genRaceCase(r.Fork(uint64(5<<32 + i)))); err != nil {
+				return err
+			}
+		}
+		return nil
+	}
+	if os.Getenv("C03_ONLY") == "racedetector" { // debugging switch
+		e.raceDetectorRun()
+		return nil
+	}
 	// the witness of finding F2, on every run
 	before := rep.Distribution["ORACLE-FAIL:"+f2Key]
 	if err := e.eval(f2Probe()); err != nil {
@@ -508,31 +525,91 @@ func (e *engine) all() error {
 
 	r := common.NewRng(o.Seed)
 	w := int64(ss2022.ReplayWindowDuration)
-	n := o.Budget(2000, 100000)
+	n := o.Budget(2000, 40000)
 	for i := 0; i < n; i++ {
 		if err := e.eval(genReplayCase(r.Fork(uint64(i)))); err != nil {
 			return err
 		}
 	}
-	n = o.Budget(300, 6000)
+	n = o.Budget(300, 3000)
 	for i := 0; i < n; i++ {
 		if err := e.eval(genRaceCase(r.Fork(uint64(1<<32 + i)))); err != nil {
 			return err
 		}
 	}
-	n = o.Budget(2000, 100000)
+	if o.Thorough() {
+		e.raceDetectorRun()
+	}
+	n = o.Budget(2000, 50000)
 	for i := 0; i < n; i++ {
 		if err := e.eval(genPoolCase(r.Fork(uint64(2<<32+i)), w)); err != nil {
 			return err
 		}
 	}
-	n = o.Budget(200, 10000)
+	n = o.Budget(200, 5000)
 	for i := 0; i < n; i++ {
 		if err := e.eval(genTsCase(r.Fork(uint64(3<<32 + i)))); err != nil {
 			return err
 		}
 	}
 	return nil
+}
+
+// raceDetectorRun (thorough tier): rebuilds this command with -race and runs the concurrent engine in it.
+// A reported data race in the code under test is an oracle failure; an unavailable race build is only noted.
+func (e *engine) raceDetectorRun() {
+	rep := e.rep
+	verif := os.Getenv("VERIF_DIR")
+	if verif == "" {
+		verif = "/verif"
+	}
+	repo := os.Getenv("VERIF_REPO")
+	dir, err := os.MkdirTemp("", "c03race")
+	if err != nil {
+		rep.Note("race-detector run skipped: %v", err)
+		return
+	}
+	defer os.RemoveAll(dir)
+	args := []string{"build", "-race"}
+	if repo != "" && repo != "/repo" {
+		tag := regexp.MustCompile(`\W+`).ReplaceAllString(repo, "_")
+		args = append(args, "-modfile", filepath.Join(verif, "harness", "go.scratch."+tag+".mod"))
+	}
+	args = append(args, "-o", filepath.Join(dir, "corr_c03_race"), "./cmd/corr_c03")
+	env := append(os.Environ(), "GOFLAGS=-mod=mod", "GOPROXY=off")
+	build := exec.Command("go", args...)
+	build.Dir = filepath.Join(verif, "harness")
+	build.Env = env
+	if out, err := build.CombinedOutput(); err != nil {
+		rep.Note("race-detector run skipped: go build -race failed: %v: %s", err, lastBytes(out, 300))
+		return
+	}
+	outFile := filepath.Join(dir, "rep.json")
+	child := exec.Command(filepath.Join(dir, "corr_c03_race"), "--tier", "thorough", "--seed", fmt.Sprint(e.o.Seed), "--out", outFile)
+	child.Env = append(env, "C03_RACE_CHILD=1")
+	t0 := time.Now()
+	out, err := child.CombinedOutput()
+	var crep common.Report
+	if b, rerr := os.ReadFile(outFile); rerr == nil {
+		json.Unmarshal(b, &crep)
+	}
+	rep.Count(fmt.Sprintf("race-detector:cases=%d", crep.Evaluations))
+	rep.Note("race-detector child: %d cases in %.1fs", crep.Evaluations, time.Since(t0).Seconds())
+	for _, f := range crep.OracleFailures {
+		rep.Fail(f)
+	}
+	if strings.Contains(string(out), "DATA RACE") {
+		rep.Fail(common.OracleFailure{Engine: "race", Key: "data-race", Case: Case{Engine: "race"}, Detail: lastBytes(out, 1500)})
+	} else if err != nil {
+		rep.Diverge(common.Divergence{Engine: "race", Case: Case{Engine: "race"}, Impl: fmt.Sprintf("race-detector child failed: %v: %s", err, lastBytes(out, 600)), Model: "clean exit"})
+	}
+}
+
+func lastBytes(b []byte, n int) string {
+	if len(b) > n {
+		b = b[len(b)-n:]
+	}
+	return string(b)
 }
 
 func main() {
